@@ -1103,6 +1103,26 @@ func (e *FnEnc) specEnv(st, old State, phiOver map[*ssa.Phi]Val) *Env {
 }
 
 func (e *FnEnc) lookupName(env *Env, name string, phiOver map[*ssa.Phi]Val) (Val, bool) {
+	if v, ok := e.lookupName1(env, name, phiOver); ok {
+		return v, true
+	}
+	// the local may have been renamed since the contract was written (rename tolerance, names.go)
+	if e.renames == nil {
+		e.renames = e.W.renamesFor(e.fn)
+		if e.renames == nil {
+			e.renames = map[string]string{}
+		}
+	}
+	if nn, ok := e.renames[name]; ok {
+		if v, ok := e.lookupName1(env, nn, phiOver); ok {
+			e.note("contract name " + name + " read as the renamed local " + nn)
+			return v, true
+		}
+	}
+	return Val{}, false
+}
+
+func (e *FnEnc) lookupName1(env *Env, name string, phiOver map[*ssa.Phi]Val) (Val, bool) {
 	if hv, ok := e.ghosts[name]; ok {
 		return Val{T: e.heapIn(env.st, hv), Sort: hv.Sort, Ty: goTypeOfSort(hv.Sort)}, true
 	}
@@ -1348,6 +1368,14 @@ func (e *FnEnc) contractCall(v ssa.Value, con *FuncContract, callee *ssa.Functio
 				}
 				env.vars[p.Name()] = a
 				k++
+			}
+		}
+		// rename tolerance: the contract may still use the names the parameters had when it was written
+		for oldName, newName := range e.W.renamesFor(callee) {
+			if v, ok := env.vars[newName]; ok {
+				if _, taken := env.vars[oldName]; !taken {
+					env.vars[oldName] = v
+				}
 			}
 		}
 	} else {
